@@ -85,7 +85,7 @@ def families(tier):
         pre += ["size >= 6", "m1 == 3", "sa == 0 or n == 0", "b1 <= 2", "b2 <= 2"]
         parts = parts_product(p1=range(5), p2=(0, 1, 4), m2=(0, 2))
     else:
-        pre += ["sa == 0 or n == 0"]
-        parts = parts_product(m1=range(mm + 1), p1=range(5), p2=range(5), m2=range(3))
+        pre += ["sa == 0 or n == 0", "size >= 3", "m1 >= 3", "b1 <= 3", "b2 <= 3"]
+        parts = parts_product(m1=(3, 4), p1=range(5), p2=range(5), m2=range(3))
     return [Family(name="stop", fn="tpl_stop", params=P, pre=pre, parts=parts,
                    twin_pre=["m1 == 3", "p1 == 0", "p2 == 4", "m2 == 2", "sa == 0"], twin_args=[9, 3, 0, 1, 4, 0, 2, 0, 2])]
